@@ -32,7 +32,7 @@ ASSUMPTIONS = [
     "allowed memory is ample in every variant (2 GB or more for arrays of at most a few kB)",
     "values compared bit-exactly between variants (compressors are lossless, task functions identical)",
 ]
-NSHARDS = {"quick": 16, "thorough": 32}
+NSHARDS = {"quick": 16, "thorough": 16}
 PER_SHARD = {"quick": 24, "thorough": 140}
 
 VARIANTS = ["global_default", "explicit_default", "other_work_dir", "intermediate_store", "compressor_none",
@@ -263,9 +263,9 @@ def finalize(tier, merged):
     return {
         "rule": RULE,
         "floors": [
-            ("(recipe, variant) outcomes compared with the baseline variant", c.get("outcomes_compared", 0), 1400 if tier == "quick" else 14000),
-            ("of which both accepted and values compared", c.get("both_accepted", 0), 800 if tier == "quick" else 8000),
-            ("memory-tight rechunks with a rectilinear intermediate grid run under the executor matrix", c.get("tight_rechunks_with_irregular_grid", 0), 20 if tier == "quick" else 200),
+            ("(recipe, variant) outcomes compared with the baseline variant", c.get("outcomes_compared", 0), 1400 if tier == "quick" else 7000),
+            ("of which both accepted and values compared", c.get("both_accepted", 0), 800 if tier == "quick" else 4000),
+            ("memory-tight rechunks with a rectilinear intermediate grid run under the executor matrix", c.get("tight_rechunks_with_irregular_grid", 0), 20 if tier == "quick" else 100),
             ("distinct operations of the table exercised", len(merged["hist"].get("ops", {})), 100),
         ],
         "assumptions": ASSUMPTIONS,
